@@ -293,6 +293,11 @@ type Plan struct {
 	Bufs    map[string]Buf `json:"bufs"`
 	Secret  []string       `json:"secret"`
 	Ret     *int           `json:"ret"`
+	// steps mode
+	Group   string      `json:"group"`
+	Variant string      `json:"variant"`
+	Ranges  [][2]uint64 `json:"secret_ranges"`
+	End     bool        `json:"end"`
 }
 
 type Rec struct {
@@ -521,6 +526,10 @@ type Checker struct {
 	steps    int64
 	traces   int64
 	taintOps int64
+	// stepsMode: Go code of a package followed by library stepping (only instructions inside the package are in the
+	// trace; calls out of it are gaps): conditional JUMPS on tainted flags and tainted address registers are
+	// violations, SETcc/CMOVcc/ADC propagate, CALL clobbers every register
+	stepsMode bool
 }
 
 func (c *Checker) ea(in *Insn, op *Operand, r *Rec) uint64 {
@@ -725,6 +734,17 @@ func (c *Checker) taintStep(ts *taintState, in *Insn, r *Rec, p *Plan, si int, f
 	if noEffect[mn] || strings.HasPrefix(mn, "nop") {
 		return
 	}
+	if c.stepsMode && strings.HasPrefix(mn, "call") {
+		// the callee is not in the trace: whatever it returns is untracked, every register is clobbered
+		for i := 0; i < 16; i++ {
+			ts.gpr[i] = false
+		}
+		for i := range ts.vec {
+			ts.vec[i] = false
+		}
+		ts.flags = false
+		return
+	}
 	opTaint := func(op *Operand, oi int) bool {
 		switch op.Kind {
 		case 1:
@@ -743,7 +763,16 @@ func (c *Checker) taintStep(ts *taintState, in *Insn, r *Rec, p *Plan, si int, f
 		}
 		return false
 	}
-	if flagReaders[mn] {
+	flagIn := false
+	if c.stepsMode && flagReaders[mn] {
+		if ts.flags && condJumps[mn] {
+			c.rep.violation("taint:secret-dependent-branch-in-go-code:"+p.Routine, map[string]interface{}{"operation": p.Config, "content": p.Content, "step": si, "pc": fmt.Sprintf("%#x", in.PC), "insn": in.Text, "function": short(in.Func), "offset_in_function": in.PC - fr[0]})
+		}
+		if condJumps[mn] {
+			return
+		}
+		flagIn = ts.flags
+	} else if flagReaders[mn] {
 		if ts.flags {
 			allowedSite := false
 			if p.Routine == "openAsm" && condJumps[mn] {
@@ -776,6 +805,36 @@ func (c *Checker) taintStep(ts *taintState, in *Insn, r *Rec, p *Plan, si int, f
 		}
 		ts.flags = t
 		return
+	}
+	if c.stepsMode {
+		switch {
+		case strings.HasPrefix(mn, "call"):
+			// the callee is not in the trace: whatever it returns is untracked, every register is clobbered
+			for i := 0; i < 16; i++ {
+				ts.gpr[i] = false
+			}
+			for i := range ts.vec {
+				ts.vec[i] = false
+			}
+			ts.flags = false
+			return
+		case strings.HasPrefix(mn, "push"):
+			if nops >= 1 {
+				ts.setMem(r.rsp()-8, 8, opTaint(&in.Ops[0], 0))
+			}
+			return
+		case strings.HasPrefix(mn, "pop"):
+			if nops >= 1 && in.Ops[0].Kind == 1 {
+				ts.setReg(in.Ops[0].Reg, ts.memTaint(r.rsp(), 8))
+			}
+			return
+		case strings.Contains(in.Text, "%es:(%rdi)") && strings.HasPrefix(mn, "stos"):
+			ts.setMem(r.gpr(5), 8, ts.gpr[0]) // one element per step: [rdi] <- rax
+			return
+		case strings.Contains(in.Text, "%es:(%rdi)") && strings.HasPrefix(mn, "movs"):
+			ts.setMem(r.gpr(5), 8, ts.memTaint(r.gpr(4), 8)) // [rdi] <- [rsi]
+			return
+		}
 	}
 	if mn == "push" || mn == "pop" || mn == "call" || strings.HasPrefix(mn, "rep") {
 		c.unmodel[mn]++
@@ -829,6 +888,9 @@ func (c *Checker) taintStep(ts *taintState, in *Insn, r *Rec, p *Plan, si int, f
 			}
 		}
 	}
+	if flagIn {
+		t = true // SETcc / CMOVcc / ADC ... on tainted flags: the result is secret-dependent (a value, not a path)
+	}
 	if flagWriters[mn] {
 		ts.flags = t
 	}
@@ -864,7 +926,12 @@ func main() {
 	outPath := flag.String("out", "", "report (JSON line, appended)")
 	check := flag.String("check", "vtrace", "check name in the report")
 	covPath := flag.String("cov", "", "write per-routine coverage (offsets of executed / all static instructions) as JSON")
+	mode := flag.String("mode", "routines", "routines (invocations of assembly routines) or steps (library stepping of whole public operations)")
 	flag.Parse()
+	if *mode == "steps" {
+		runSteps(*tracePath, *planPath, *disPath, *prop, *check, *outPath)
+		return
+	}
 	rep := &Report{Prop: *prop, Check: *check, Classes: map[string]int64{}, Notes: map[string]interface{}{}, Counters: map[string]int64{}, vmap: map[string]*Violation{}}
 	fail := func(msg string) {
 		rep.Inconclusive = append(rep.Inconclusive, msg)
@@ -1051,4 +1118,125 @@ func write(rep *Report, path string) {
 	}
 	f.Write(append(data, '\n'))
 	f.Close()
+}
+
+
+// ---------------------------------------------------------------------------- steps mode
+
+// runSteps: taint interpretation of library-stepping traces. Between two markers the trace holds the instructions
+// executed inside the package (kind 0); the plan names, per marker id, the byte ranges that hold key, round keys,
+// nonce, additional data, message and ciphertext. A conditional jump on flags derived from those bytes, or a memory
+// operand whose address registers derive from them, is reported - for ALL values of the bytes at once, which the
+// sequence comparison of the same traces only samples.
+func runSteps(tracePath, planPath, disPath, prop, check, outPath string) {
+	rep := &Report{Prop: prop, Check: check, Classes: map[string]int64{}, Notes: map[string]interface{}{}, Counters: map[string]int64{}, vmap: map[string]*Violation{}}
+	fail := func(msg string) {
+		rep.Inconclusive = append(rep.Inconclusive, msg)
+		write(rep, outPath)
+		os.Exit(0)
+	}
+	dis, err := loadDisasm(disPath)
+	if err != nil {
+		fail("cannot read disassembly: " + err.Error())
+	}
+	c := &Checker{dis: dis, rep: rep, prop: prop, plans: map[uint64]*Plan{}, mnemMem: map[string]bool{}, unmodel: map[string]int{}, stepsMode: true}
+	pf, err := os.Open(planPath)
+	if err != nil {
+		fail("cannot read plan: " + err.Error())
+	}
+	sc := bufio.NewScanner(pf)
+	sc.Buffer(make([]byte, 1<<20), 1<<20)
+	for sc.Scan() {
+		var p Plan
+		if json.Unmarshal(sc.Bytes(), &p) == nil && !p.End {
+			pp := p
+			c.plans[p.ID] = &pp
+		}
+	}
+	pf.Close()
+	tf, err := os.Open(tracePath)
+	if err != nil {
+		fail("cannot read trace: " + err.Error())
+	}
+	br := bufio.NewReaderSize(tf, 1<<22)
+	var cur *Plan
+	var recs []Rec
+	var ops, withSources, undecoded int64
+	process := func() {
+		if cur == nil || len(recs) == 0 {
+			return
+		}
+		ops++
+		if len(cur.Ranges) > 0 {
+			withSources++
+		}
+		ts := &taintState{mem: map[uint64]bool{}}
+		for _, rg := range cur.Ranges {
+			ts.setMem(rg[0], int(rg[1]), true)
+		}
+		p := &Plan{Routine: strings.SplitN(strings.SplitN(cur.Group, "/", 2)[0], "#", 2)[0], Config: cur.Group, Content: cur.Variant}
+		verdictUsed := 0
+		for si := range recs {
+			r := &recs[si]
+			in := dis.Insns[r.rip()]
+			if in == nil {
+				// entry of an assembly routine (logged, not stepped): it clobbers registers like any call
+				for i := 0; i < 16; i++ {
+					ts.gpr[i] = false
+				}
+				ts.flags = false
+				undecoded++
+				continue
+			}
+			c.steps++
+			fr := dis.Funcs[in.Func]
+			if in.Mn != "lea" && !strings.HasPrefix(in.Mn, "nop") {
+				for oi := range in.Ops {
+					op := &in.Ops[oi]
+					if op.Kind == 2 && ((op.Base >= 0 && op.Base != 7 && ts.gpr[op.Base]) || (op.Index >= 0 && ts.gpr[op.Index])) {
+						rep.violation("taint:secret-dependent-address-in-go-code:"+p.Routine, map[string]interface{}{"operation": p.Config, "content": p.Content, "step": si, "pc": fmt.Sprintf("%#x", in.PC), "insn": in.Text, "function": short(in.Func), "offset_in_function": in.PC - fr[0]})
+					}
+				}
+			}
+			c.taintStep(ts, in, r, p, si, fr, &verdictUsed)
+		}
+	}
+	buf := make([]byte, 19*8)
+	for {
+		if _, err := io.ReadFull(br, buf); err != nil {
+			break
+		}
+		var r Rec
+		r.Tag = binary.LittleEndian.Uint64(buf)
+		for i := 0; i < 18; i++ {
+			r.Regs[i] = binary.LittleEndian.Uint64(buf[8*(i+1):])
+		}
+		switch r.Tag & 0xff {
+		case 3:
+			process()
+			cur = c.plans[r.Regs[2]]
+			recs = recs[:0]
+		case 0, 1:
+			if cur != nil {
+				recs = append(recs, r)
+			}
+		}
+	}
+	process()
+	tf.Close()
+	rep.Evaluations = ops
+	rep.Counters["go_glue_taint_operations"] = ops
+	rep.Counters["go_glue_taint_operations_with_declared_secrets"] = withSources
+	rep.Counters["go_glue_taint_instructions_interpreted"] = c.steps
+	rep.Counters["go_glue_taint_assembly_entries_skipped"] = undecoded
+	if len(c.unmodel) > 0 {
+		rep.Notes["go_glue_unmodelled_instructions"] = c.unmodel
+	}
+	if len(dis.Errors) > 0 {
+		rep.Notes["go_glue_disassembly_parse_errors"] = dis.Errors[:min(len(dis.Errors), 10)]
+	}
+	if withSources == 0 {
+		rep.Inconclusive = append(rep.Inconclusive, "steps taint: no operation declared its secret byte ranges")
+	}
+	write(rep, outPath)
 }
